@@ -237,3 +237,5 @@ def check(ctx, run):  # noqa: F811
         exhaustive_histories_rule(ctx, run, "C12.R9x", 2)
     from ..ctors import rebinding_rule
     rebinding_rule(ctx, run, "C12.R2", ['pfhedge.instruments.derivative'], 20)
+    from ..ctors import exports_rule
+    exports_rule(ctx, run, "C12.R2", ['pfhedge.instruments'])
